@@ -722,8 +722,8 @@ void count_alloc(bool is_mmap)
 
 void arm_fwrite_fault(void* stream, uint32_t count)
 {
-  g_fwrite_fault_stream = stream;
-  g_fwrite_fault_count = count;
+  g_fwrite_fault_stream = stream; // nullptr = any stream except stdout / stderr
+  g_fwrite_fault_count += count;
 }
 uint64_t fwrite_faults_fired() { return g_fwrite_faults_fired; }
 
@@ -980,7 +980,7 @@ bool exiting() { return g_exiter != nullptr; }
 
 bool fwrite_should_fail(void* stream)
 {
-  if (g_fwrite_fault_count > 0 && stream == g_fwrite_fault_stream)
+  if (g_fwrite_fault_count > 0 && (g_fwrite_fault_stream == nullptr || stream == g_fwrite_fault_stream))
   {
     --g_fwrite_fault_count;
     ++g_fwrite_faults_fired;
